@@ -3,6 +3,7 @@ import BddProofs.TotalQuery
 import BddProofs.CountCor
 import BddProofs.CountStrong
 import BddProofs.Init
+import BddProofs.DriverQuery
 /-! # C13 — `sat_count` is the exact number of satisfying assignments
 
 `count φ n` = number of assignments to `x_1 … x_n` satisfying `φ` (recursion over the variables).
@@ -38,9 +39,20 @@ theorem C13_sat_count_total {fuel : Nat} {s : St} {n : Nat} {f : Ref} {φ : Fn} 
 /-- non-vacuity -/
 example : satCount 3 s4 Ref.one 5 = .ok 32 ∧ Good s4 := ⟨by rfl, s4_good⟩
 
+/-- the same through the dispatcher the model driver really runs for queries (`execQuery`,
+`BddModel/DriverQuery.lean`): an accepted `sat_count` query, whenever it returns, returns the count of the
+function its handle denotes; with the variables bounded by `n` it does return — no hypothesis about the
+handle left (`execQuery_paths`, `execQuery_onesat`, `execQuery_low_high`, `execQuery_dot` are the twins for
+C14, C08 and C16) -/
+theorem C13_driver_reply {fuel : Nat} {s : St} {f : Ref} {n : Nat} (hg : Good s)
+    (hok : (Query.satcount f n).ok s = true) (hV : VarsLe s n) (hfuel : n + 1 < fuel) :
+    ∃ φ, Valid s.nodes f φ ∧ execQuery fuel s (.satcount f n) = .count (.ok (count φ n)) :=
+  execQuery_satcount_total hg hok hV hfuel
+
 end P
 #print axioms P.C13_sat_count
 #print axioms P.C13_complement
 #print axioms P.C13_inclusion_exclusion
 #print axioms P.C13_unused_variable
 #print axioms P.C13_sat_count_total
+#print axioms P.C13_driver_reply
